@@ -35,7 +35,7 @@ partial def loop (h : IO.FS.Stream) (out : IO.FS.Stream) : IO Unit := do
   else
     -- `big=1`: a document with so many items that only the implementation-side oracles run
     -- (the model's per-item fuel computation is quadratic there); both sides print `BIG`
-    let (obs, tags) := if (line.splitOn " big=1").length > 1 then ("BIG", "big=1") else runLine line
+    let (obs, tags) := if (line.splitOn " ").contains "big=1" then ("BIG", "big=1") else runLine line
     out.putStrLn s!"{obs}\t{tags}"
     loop h out
 
